@@ -57,6 +57,38 @@ func checkC20(p *Program, r *Result) {
 			r.violated("C20.a", fname, "attachment source is only streamed", p.pos(fn.Pos()), "the attachment data source must only feed a streaming copy: "+bad)
 		}
 	}
+	// allocation sizes on the write path of an attachment must not grow with the attachment's data size
+	if fn := p.lookupFunc(pkgMcap, "Writer.WriteAttachment"); fn != nil {
+		fname := funcName(fn)
+		n := 0
+		for _, in := range instrsOf(fn) {
+			var sizeArg ssa.Value
+			what := ""
+			switch x := in.(type) {
+			case *ssa.MakeSlice:
+				sizeArg, what = x.Len, "make"
+			case ssa.CallInstruction:
+				nm := calleeRepoName(x)
+				if nm == "mcap.Writer.ensureSized" || nm == "mcap.makeSafe" {
+					sizeArg, what = x.Common().Args[len(x.Common().Args)-1], trimPkg(nm)
+				}
+			}
+			if sizeArg == nil {
+				continue
+			}
+			n++
+			src := map[string]bool{}
+			valueSources(sizeArg, src, map[ssa.Value]bool{}, 0)
+			construct := "buffer size requested by " + what
+			if src["field:Attachment.DataSize"] {
+				r.violated("C20.a", fname, construct, p.pos(in.Pos()),
+					"the size of a buffer allocated while writing an attachment depends on Attachment.DataSize; the writer then holds memory proportional to the attachment although the data is streamed")
+			} else {
+				r.held("C20.a", fname, construct, p.pos(in.Pos()), "independent of the attachment's data size")
+			}
+		}
+		_ = n
+	}
 	if fn := p.lookupFunc(pkgMcap, "Lexer.Next"); fn != nil {
 		checkAttachmentArmLeaves(p, r, fn)
 	}
@@ -371,6 +403,54 @@ func checkReuseBeforeGrow(p *Program, r *Result) {
 	if !found {
 		r.undecided("C20.c", fname, "slot allocation", p.pos(fn.Pos()), "no append to it.chunkSlots found")
 	}
+	// the test that makes a slot reusable is `unreadMessages == 0` alone: a further condition (capacity, age, …) lets
+	// drained slots be passed over, and every passed-over slot keeps its buffer for the life of the iterator
+	for _, in := range all {
+		b, ok := in.(*ssa.BinOp)
+		if !ok || b.Op != token.EQL && b.Op != token.NEQ {
+			continue
+		}
+		var other ssa.Value
+		if loadOfField(b.X, "chunkSlot", "unreadMessages") {
+			other = b.Y
+		} else if loadOfField(b.Y, "chunkSlot", "unreadMessages") {
+			other = b.X
+		} else {
+			continue
+		}
+		if c, ok := other.(*ssa.Const); !ok || c.Value == nil || c.Value.String() != "0" {
+			continue
+		}
+		for _, ref := range *b.Referrers() {
+			iff, ok := ref.(*ssa.If)
+			if !ok {
+				continue
+			}
+			free := iff.Block().Succs[0]
+			if b.Op == token.NEQ {
+				free = iff.Block().Succs[1]
+			}
+			extra := ""
+			if i2, ok := free.Instrs[len(free.Instrs)-1].(*ssa.If); ok && len(free.Preds) == 1 {
+				extra = "a drained slot is accepted only if additionally " + strings.SplitN(i2.Cond.String(), "\n", 2)[0]
+			}
+			// the test itself must not sit behind another per-slot condition
+			if pb := iff.Block(); len(pb.Preds) == 1 {
+				if i0, ok := pb.Preds[0].Instrs[len(pb.Preds[0].Instrs)-1].(*ssa.If); ok {
+					if _, isBin := i0.Cond.(*ssa.BinOp); isBin && !isRangeTest(i0) {
+						extra = "the drained-slot test is only reached if " + strings.SplitN(i0.Cond.String(), "\n", 2)[0]
+					}
+				}
+			}
+			fn2 := funcName(b.Parent())
+			if extra == "" {
+				r.held("C20.c", fn2, "a slot is reusable as soon as it has no unread messages", p.pos(b.Pos()), "unreadMessages == 0 is the only condition")
+			} else {
+				r.violated("C20.c", fn2, "a slot is reusable as soon as it has no unread messages", p.pos(b.Pos()),
+					extra+"; slots that fail the extra condition are skipped, a new slot is appended instead, and the skipped slot keeps its buffer: memory grows with the number of chunks")
+			}
+		}
+	}
 	// slot buffer: allocation guarded by a capacity test
 	type bufSite struct {
 		f      *ssa.Function
@@ -488,4 +568,19 @@ func testsUnread(f *ssa.Function, depth int) bool {
 		}
 	}
 	return false
+}
+
+// isRangeTest: the If is the bounds test of a range/for loop (index < len).
+func isRangeTest(iff *ssa.If) bool {
+	b, ok := iff.Cond.(*ssa.BinOp)
+	if !ok || b.Op != token.LSS {
+		return false
+	}
+	if c, ok := b.Y.(*ssa.Call); ok {
+		if bi, ok := c.Call.Value.(*ssa.Builtin); ok && bi.Name() == "len" {
+			return true
+		}
+	}
+	_, isPhi := b.X.(*ssa.Phi)
+	return isPhi
 }
